@@ -25,6 +25,11 @@ def run(ck, an, tier):
     s2(ck, an)
     s3(ck, an)
     s4(ck, an)
+    from rules.C12 import subclass_ctor_plumbing
+    subclass_ctor_plumbing(ck, an, "S4")
+    from rules import C08
+    from sa.report import Renamed
+    C08.s1(Renamed(ck, "C08:"), an)       # with a delay the due action is the one submitted d steps earlier in THIS episode
     allocation_filters(ck, an, "S5")
 
 
